@@ -13,7 +13,8 @@ from . import build as B
 from . import verus as V
 
 VERIF = os.path.dirname(os.path.dirname(os.path.abspath(__file__)))
-REPO = '/repo'
+# developer override only (see build.SRC_ROOT); registered checks always use /repo
+REPO = os.environ.get('VERIF_DEV_REPO', '/repo')
 
 
 def load_json(p):
